@@ -7,7 +7,8 @@ import concurrent.futures as cf
 import copy, json, os, re
 import vlib, wire_common
 
-NEED_TAGS = ["raw-judged", "wire-judged", "wire-same-as-raw", "nothing-emitted:build", "nothing-emitted:preset", "nothing-emitted:src",
+NEED_TAGS = ["hrr-second-hello-judged", "hrr-cookie-echoed", "remarshal-judged:sni", "remarshal-judged:sni-remove", "remarshal-judged:add-ext",
+             "remarshal-judged:del-ext", "remarshal-judged:random", "raw-judged", "wire-judged", "wire-same-as-raw", "nothing-emitted:build", "nothing-emitted:preset", "nothing-emitted:src",
              "quic", "psk-present", "padding-present", "sni-omitted"]
 FLAGS = [(b, p, r) for b in (True, False) for p in (False, True) for r in (False, True)]
 
@@ -28,15 +29,19 @@ def generate(ctx):
         "cfg": dict(Mode='"cfg"'),
         "cap": dict(Mode='"cap"'),
         "sweep": dict(Mode='"sweep"'),
+        "var": dict(Mode='"var"'),
         "pairs": dict(Mode='"sel"', MaxSel=2, AllShapes="TRUE"),
         "deep": dict(Mode='"sel"', MaxSel=3 if q else 4, AllShapes="FALSE", TripleMod=16 if q else 1, QuadMod=64 if q else 48),
     }
-    with cf.ThreadPoolExecutor(max_workers=5) as ex:
+    with cf.ThreadPoolExecutor(max_workers=6) as ex:
         futs = {k: ex.submit(tlc_mode, ctx, k, v, 2 if k != "deep" else (4 if q else 8)) for k, v in jobs.items()}
         res = {k: f.result() for k, f in futs.items()}
     sweep = sorted(res["sweep"].tagged("CFG"), key=lambda c: len(c["sni"]))
     if len(sweep) != 260:
         raise vlib.Machinery("C02_MC sweep emitted %d names" % len(sweep))
+    variations = [x["v"] for x in sorted(res["var"].tagged("VAR"), key=lambda x: x["i"])]
+    if len(variations) != res["var"].distinct or not any(v["kind"] == "hrr" for v in variations):
+        raise vlib.Machinery("C02_MC var emitted %d variations" % len(variations))
     cfgs = res["cfg"].tagged("CFG")
     caps = res["cap"].tagged("CAP")
     sels = res["pairs"].tagged("SEL") + res["deep"].tagged("SEL")
@@ -46,7 +51,7 @@ def generate(ctx):
     by_len = {}
     for s in sels:
         by_len[len(s["exts"])] = by_len.get(len(s["exts"]), 0) + 1
-    return cfgs, caps, sels, by_len, sweep
+    return cfgs, caps, sels, by_len, sweep, variations
 
 
 def plain_cfg(c):
@@ -75,13 +80,52 @@ def cfg_sig(c):
     return "sni=%s/%d,alpn=%d,cache=%s,omit=%d,quic=%d" % (sn.get(c.get("snikind"), "?"), len(c["sni"]), len(c["alpn"]), c["cache"], c["omitpsk"], c["quic"])
 
 
-def build_cases(ctx, ids, cfgs, caps, sels, sweep):
+def mkcase(src, c, var=None):
+    """var: a TLC variation record (edit / hrr); the name in force after an edit goes into the scenario as sni2."""
+    cfg = plain_cfg(c)
+    if var is not None and var["kind"] == "hrr" and var["cookie"] > 0 and has_cookie(src):
+        var = dict(var, cookie=0)       # a hello that already carries a cookie is no first ClientHello: no second cookie on top
+    case = {"src": src, "cfg": cfg, "cfgfull": c, "var": var, "sni2": cfg["sni"], "edit": "none"}
+    if var is not None:
+        if var["kind"] == "hrr":
+            cfg["skipverify"] = True
+            case["hrr"] = {"group": var["group"], "cookie": var["cookie"]}
+        else:
+            case["edit"] = var["op"]
+            case["editrec"] = {"op": var["op"], "name": var["name"]}
+            if var["op"] == "sni":
+                case["sni2"] = var["name"]
+            elif var["op"] == "sni-remove":
+                case["sni2"] = []
+    return case
+
+
+def has_cookie(src):
+    t = src["type"]
+    if t == "custom":
+        return any(d["kind"] == "CookieExtension" for d in src["spec"]["exts"])
+    if t == "cap":
+        return len(src["name"]) > 1 and src["name"][1] == 44
+    if t == "fp":
+        return has_cookie(src["of"])
+    if t == "import":
+        return "/44/" in src["of"]
+    return False
+
+
+def var_sig(v):
+    if v is None:
+        return ""
+    return "+hrr(%d,cookie=%d)" % (v["group"], v["cookie"]) if v["kind"] == "hrr" else "+edit(%s%s)" % (v["op"], "/%d" % len(v["name"]) if v["name"] else "")
+
+
+def build_cases(ctx, ids, cfgs, caps, sels, sweep, variations):
     q, seed = ctx.quick, ctx.seed
     n = len(cfgs)
     default = next(c for c in cfgs if c["snikind"] == 2 and c["alpnkind"] == 1 and c["cache"] == "none" and not c["omitpsk"] and not c["quic"])
     cases = []
-    def add(src, c):
-        cases.append({"src": src, "cfg": plain_cfg(c), "cfgfull": c})
+    def add(src, c, var=None):
+        cases.append(mkcase(src, c, var))
     # (a) every predefined parrot and the Go default x Config variations
     for i, name in enumerate(ids["parrots"] + [ids["golang"]]):
         for j, c in enumerate(cfgs):
@@ -117,11 +161,39 @@ def build_cases(ctx, ids, cfgs, caps, sels, sweep):
             add({"type": "cap", "name": c["name"], "raw": c["raw"], "blunt": b, "pad": p, "realpsk": r}, default if fi % 2 == 0 else cfgs[(i * 13 + fi + seed) % n])
     # (f) the repository's JSON ClientHelloSpecs
     tdir = os.path.join(vlib.REPO, "testdata")
+    jsons = []
     for fn in sorted(os.listdir(tdir)):
         if fn.startswith("ClientHello-JSON-") and fn.endswith(".json"):
             data = list(open(os.path.join(tdir, fn), "rb").read())
+            jsons.append((fn, data))
             for j in range(6):
                 add({"type": "json", "file": fn, "data": data}, cfgs[(j * 37 + seed) % n])
+    # (h) every source class again, followed by a variation from TLC: an edit of the built hello + second marshal,
+    #     or a real HelloRetryRequest (with / without cookie); every Raw and both wire hellos are judged
+    nv = len(variations)
+    plaincfgs = [c for c in cfgs if not c["quic"] and c["cache"] == "none" and c["snikind"] in (2, 5, 6)]
+    def vcfg(k):
+        return default if k % 3 == 0 else plaincfgs[(k + seed) % len(plaincfgs)]
+    k = 0
+    for name in ids["parrots"] + [ids["golang"]]:
+        for v in variations:
+            add({"type": "id", "id": name}, vcfg(k), v); k += 1
+    for i, name in enumerate(ids["randomized"]):
+        for j in range(10 if q else 80):
+            add({"type": "random", "id": name, "seed": seed * 7919 + j * 3 + i}, vcfg(k), variations[(j + i) % nv]); k += 1
+    for j, s in enumerate(sels[::(25 if q else 6)]):
+        spec = {"min": s["min"], "max": s["max"], "suites": s["suites"], "comp": s["comp"], "exts": s["exts"]}
+        add({"type": "custom", "spec": spec}, vcfg(k), variations[(j + seed) % nv]); k += 1
+    for i, name in enumerate(ids["parrots"]):
+        for j in range(3 if q else nv):
+            b, p, r = FLAGS[(i + j + seed) % 8]
+            add({"type": "fp", "of": {"type": "id", "id": name}, "blunt": b, "pad": p, "realpsk": r}, vcfg(k), variations[(i * 5 + j * 7 + seed) % nv]); k += 1
+    for i, c in enumerate(caps):
+        for j in range(2 if q else 6):
+            add({"type": "cap", "name": c["name"], "raw": c["raw"], "blunt": True, "pad": j % 2 == 1, "realpsk": False}, vcfg(k), variations[(i + j * 9 + seed) % nv]); k += 1
+    for fn, data in jsons:
+        for v in variations:
+            add({"type": "json", "file": fn, "data": data}, vcfg(k), v); k += 1
     return cases, default
 
 
@@ -131,7 +203,12 @@ def run_cases(ctx, cases, name, base=0):
         src = {k: v for k, v in c["src"].items() if k not in ("name", "file", "of_name")}
         if "of" in c["src"] and c["src"]["type"] == "import":
             src.pop("of")
-        wire.append({"sc": base + i + 1, "src": src, "cfg": c["cfg"]})
+        w = {"sc": base + i + 1, "src": src, "cfg": c["cfg"]}
+        if c.get("hrr"):
+            w["hrr"] = c["hrr"]
+        if c.get("editrec"):
+            w["edit"] = c["editrec"]
+        wire.append(w)
     evs = ctx.drv("c02", {"cases": wire}, prog="wirea", timeout=1200, name=name)
     if len(evs) != len(cases) or any(e["sc"] != base + i + 1 for i, e in enumerate(evs)):
         raise vlib.Machinery("c02 harness returned %d events for %d cases" % (len(evs), len(cases)))
@@ -139,7 +216,7 @@ def run_cases(ctx, cases, name, base=0):
 
 
 def validate(ctx, cases, evs, nshards, tag, count=True):
-    pairs = [({"cfg": {"sni": c["cfg"]["sni"], "quic": c["cfg"]["quic"]}}, e) for c, e in zip(cases, evs)]
+    pairs = [({"cfg": {"sni": c["cfg"]["sni"], "sni2": c["sni2"], "quic": c["cfg"]["quic"]}, "edit": c["edit"]}, e) for c, e in zip(cases, evs)]
     return wire_common.validate(ctx, "C02_Trace", "C02_Trace", "c02_scn.json", "c02_trace.ndjson", pairs, nshards, tag, count=count)
 
 
@@ -152,7 +229,7 @@ def import_maps(ctx, rows):
     return out
 
 
-def canaries(ctx, c1, e1):
+def canaries(ctx, c1, e1, edit=None, hrr=None):
     tests = [("good", c1, e1, False)]
     # the extension block length sits after random(32) sid cipher suites compression: corrupt specific, parsed places
     def mut(f):
@@ -172,6 +249,15 @@ def canaries(ctx, c1, e1):
     e = copy.deepcopy(e1); e["wiresame"] = False; e["wire"] = e["raw"][:-1]; tests.append(("wire-truncated", c1, e, True))
     c2 = copy.deepcopy(c1); c2["cfg"]["sni"] = list(b"other.example"); tests.append(("sni-other-name", c2, e1, True))
     e = copy.deepcopy(e1); e["built"] = False; e["onwire"] = False; tests.append(("dropped-emission-is-not-judged", c1, e, False))
+    if edit is None or hrr is None:
+        raise vlib.Machinery("canary: no good re-marshal / HelloRetryRequest event available")
+    ce, ee = edit
+    tests.append(("good-remarshal", ce, ee, False))
+    e = copy.deepcopy(ee); e["raw2"][-1] = (e["raw2"][-1] + 1) % 256; e["raw2"].append(0); tests.append(("remarshal-trailing-byte", ce, e, True))
+    c2 = copy.deepcopy(ce); c2["sni2"] = c2["cfg"]["sni"]; tests.append(("remarshal-kept-old-name", c2, ee, True))
+    ch, eh = hrr
+    tests.append(("good-hrr", ch, eh, False))
+    e = copy.deepcopy(eh); e["wire2"] = e["wire2"][:-1]; tests.append(("second-hello-truncated", ch, e, True))
     rej, _, _ = validate(ctx, [t[1] for t in tests], [t[2] for t in tests], 1, "canary", count=False)
     rejected = {i for i, _ in rej}
     for i, (name, _, _, want) in enumerate(tests):
@@ -195,9 +281,12 @@ class Stats:
         self.distinct = set()
         self.firsts = {}        # id name -> first emitted Raw (input of the import phase)
         self.canary = None      # one good (case, event) pair kept for the binding canaries
+        self.canary_edit = None # ... one whose hello was marshaled again after an edit
+        self.canary_hrr = None  # ... one with a second ClientHello after a HelloRetryRequest
         self.rejected = []      # (case, event, rej)
         self.cov = set()
         self.samples = []
+        self.slow = {}
 
     def add(self, cases, evs, rej, cov):
         self.cov |= cov
@@ -208,7 +297,7 @@ class Stats:
             self.n += 1
             t = c["src"]["type"]
             self.bysrc[t] = self.bysrc.get(t, 0) + 1
-            self.distinct.add((src_sig(c["src"]), cfg_sig(c["cfgfull"])))
+            self.distinct.add((src_sig(c["src"]) + var_sig(c["var"]), cfg_sig(c["cfgfull"])))
             if (e["built"] and e["raw"]) or e["onwire"]:
                 self.emitted += 1
             else:
@@ -219,9 +308,16 @@ class Stats:
                 self.panics[k] = self.panics.get(k, 0) + 1
             if e["warm"]:
                 self.warmfail += 1
+            if e.get("ms", 0) > 2000:
+                k = "%s%s %s | %s" % (src_sig(c["src"])[:60], var_sig(c["var"]), cfg_sig(c["cfgfull"]), (e["hserr"] or e["panic"])[:60])
+                self.slow[k] = e["ms"]
             if t in ("id", "random") and e["built"] and e["raw"] and c["src"]["id"] not in self.firsts:
                 self.firsts[c["src"]["id"]] = e["raw"]
-            if (self.canary is None and i not in bad and t == "id" and e["built"] and len(e["raw"]) > 300 and e["wiresame"]
+            if self.canary_edit is None and i not in bad and t == "id" and c["src"]["id"] != "Golang-0" and e["edited"] and len(e["raw2"]) > 300 and c["edit"] == "sni" and c["sni2"] and c["sni2"][0] > 57:
+                self.canary_edit = (c, e)
+            if self.canary_hrr is None and i not in bad and e["nwire"] >= 2 and len(e["wire2"]) > 300:
+                self.canary_hrr = (c, e)
+            if (self.canary is None and i not in bad and c["var"] is None and t == "id" and e["built"] and len(e["raw"]) > 300 and e["wiresame"]
                     and c["cfgfull"]["snikind"] == 2):
                 self.canary = (c, e)
             if self.n % 977 == 5 and len(self.samples) < 4:
@@ -234,6 +330,7 @@ def process(ctx, st, cases, nshards, tag, batch=12000):
     for b in range(0, len(cases), batch):
         part = cases[b:b + batch]
         evs = run_cases(ctx, part, "c02_%s_%d" % (tag, b))
+        nshards = max(1, min(nshards, len(part) // 150))      # a JVM start per shard: small batches use few shards
         order = [i for k in range(nshards) for i in range(k, len(part), nshards)]
         scases, sevs = [part[i] for i in order], [evs[i] for i in order]
         rej, cov, done = validate(ctx, scases, sevs, nshards, "%s%d" % (tag, b))
@@ -243,8 +340,8 @@ def process(ctx, st, cases, nshards, tag, batch=12000):
 
 def run(ctx):
     ids = ctx.drv("ids", {}, prog="wirea")[0]
-    cfgs, caps, sels, by_len, sweep = generate(ctx)
-    cases, default = build_cases(ctx, ids, cfgs, caps, sels, sweep)
+    cfgs, caps, sels, by_len, sweep, variations = generate(ctx)
+    cases, default = build_cases(ctx, ids, cfgs, caps, sels, sweep, variations)
     nshards = 8 if ctx.quick else 14
     st = Stats()
     process(ctx, st, cases, nshards, "main")
@@ -261,42 +358,58 @@ def run(ctx):
     for r, m in sorted(maps.items()):
         for j in range(2 if ctx.quick else 8):
             c = default if j == 0 else cfgs[(r * 17 + j * 5 + ctx.seed) % len(cfgs)]
-            icases.append({"src": {"type": "import", "of": names[r], "map": m}, "cfg": plain_cfg(c), "cfgfull": c})
+            icases.append(mkcase({"type": "import", "of": names[r], "map": m}, c))
     process(ctx, st, icases, nshards, "import")
+    badimports = {c["src"]["of"] for c, _, _ in st.rejected if c["src"]["type"] == "import"}
+    vcases = []
+    for r, m in sorted(maps.items()):
+        if names[r] in badimports:
+            continue        # already reported by its signature; variations of it would only repeat that finding
+        for j in range(2 if ctx.quick else 6):
+            vcases.append(mkcase({"type": "import", "of": names[r], "map": m}, default, variations[(r * 3 + j * 5 + ctx.seed) % len(variations)]))
+    process(ctx, st, vcases, nshards, "importvar")
+    icases = icases + vcases
     ncases = len(cases) + len(icases)
     # reproduce each rejection class alone (fresh harness process, fresh TLC): at most 3 cases per signature
     classes = {}
     for c, e, r in st.rejected:
-        sig = "invalid:%s:%s" % (src_sig(c["src"]), why_sig(r["why"]))
+        sig = "invalid:%s%s:%s" % (src_sig(c["src"]), var_sig(c["var"]), why_sig(r["why"]))
         classes.setdefault(sig, []).append((c, e, r))
-    rcases, rsigs = [], []
+    # Shuffling parrots / randomized layouts make the exact reason vary between runs, so a class counts as reproduced
+    # when the same (source, variation) is rejected again; the signature reported is the one of the re-run.
+    keyof = lambda c: src_sig(c["src"]) + var_sig(c["var"])
+    bykey = {}
     for sig, members in classes.items():
-        for c, e, r in members[:3]:
-            rcases.append(c)
-            rsigs.append(sig)
-    reproduced = {}
+        bykey.setdefault(keyof(members[0][0]), []).extend(members)
+    rcases = [c for members in bykey.values() for c, e, r in members[:3] for _ in range(2)]
+    reproduced, unreproduced = {}, []
     if rcases:
         e2 = run_cases(ctx, rcases, "c02_repro")          # a fresh harness process and a fresh TLC run for the rejected cases only
         rej2, _, _ = validate(ctx, rcases, e2, min(4, len(rcases)), "repro", count=False)
         for idx, r in rej2:
-            if "invalid:%s:%s" % (src_sig(rcases[idx]["src"]), why_sig(r["why"])) == rsigs[idx]:
-                reproduced[rsigs[idx]] = (rcases[idx], e2[idx], r)
-    for sig, members in classes.items():
-        if sig not in reproduced:
-            raise vlib.Machinery("rejection %s did not reproduce" % sig)
-        c, e, r = reproduced[sig]
+            reproduced.setdefault(keyof(rcases[idx]), (rcases[idx], e2[idx], r))
+    for key, members in bykey.items():
+        if key not in reproduced:
+            unreproduced.append(key)
+            continue
+        c, e, r = reproduced[key]
+        sig = "invalid:%s:%s" % (key, why_sig(r["why"]))
         for _ in members:
-            ctx.finding(sig, "a malformed ClientHello was emitted (%s) for %s under %s" % (why_sig(r["why"]), src_sig(c["src"]), cfg_sig(c["cfgfull"])),
+            ctx.finding(sig, "a malformed ClientHello was emitted (%s) for %s under %s" % (why_sig(r["why"]), key, cfg_sig(c["cfgfull"])),
                         {"source": {k: (v if k not in ("raw", "data", "map") else "(%d items)" % len(v)) for k, v in c["src"].items()} if c["src"]["type"] != "custom" else c["src"],
-                         "capture_record_hex": bytes(c["src"]["raw"]).hex() if c["src"]["type"] == "cap" else "",
+                         "variation": c["var"] or "", "capture_record_hex": bytes(c["src"]["raw"]).hex() if c["src"]["type"] == "cap" else "",
                          "config": cfg_sig(c["cfgfull"]), "why": r["why"], "build_error": e["builderr"], "emitted_len": len(e["raw"]),
-                         "emitted_head_hex": bytes(e["raw"][:96]).hex()})
+                         "emitted_head_hex": bytes((e["raw2"] or e["wire2"] or e["raw"] or e["wire"])[:96]).hex()})
+    if unreproduced:
+        if not ctx.findings:
+            raise vlib.Machinery("%d rejection(s) did not reproduce, e.g. %s" % (len(unreproduced), unreproduced[0]))
+        ctx.note("%d rejected (source, variation) pairs did not reproduce in 6 re-runs and are not reported: %s" % (len(unreproduced), unreproduced[:5]))
     # honesty checks (after the findings, so that a defective tree is reported as such and not as a machinery problem)
     ncan = 0
     try:
         if st.canary is None:
             raise vlib.Machinery("canary: no suitable good event")
-        ncan = canaries(ctx, *st.canary)
+        ncan = canaries(ctx, st.canary[0], st.canary[1], st.canary_edit, st.canary_hrr)
         lacking = [t for t in NEED_TAGS if t not in st.cov]
         if lacking:
             raise vlib.Machinery("judgement branches never taken in trace validation: %r (taken: %r)" % (lacking, sorted(st.cov)))
@@ -312,7 +425,7 @@ def run(ctx):
                     "selections of 3%s kinds with rotating shapes (residue class of the seed)" % ("" if ctx.quick else "-4"),
             "cases_by_source": st.bysrc, "custom_specs_by_length": by_len, "config_variations": len(cfgs), "captures": len(caps),
             "emitted": st.emitted, "not_emitted_by_error": dict(sorted(st.errs.items(), key=lambda kv: -kv[1])[:12]), "panics_not_emitting": st.panics,
-            "branches_taken": sorted(st.cov), "canaries": ncan, "warmup_failures": st.warmfail, "samples": st.samples, "exhaustive": False}
+            "branches_taken": sorted(st.cov), "canaries": ncan, "warmup_failures": st.warmfail, "slow_cases": len(st.slow), "slow_examples": dict(list(st.slow.items())[:8]), "samples": st.samples, "exhaustive": False}
     return "model_checking", covd, ["TLSWire!ValidClientHello states the RFC grammar; C02_MC checks it against the reference encoders (ParseInvertsEncode, EncodedIsValid, CapValid)",
                                      "a panic or an error before anything is handed out counts as 'nothing emitted' (the property only speaks about emitted bytes)",
                                      "stored sessions come from a real warm-up handshake of the Go default hello against the in-tree server"]
